@@ -250,6 +250,23 @@ func cmdCheck(args []string) int {
 				obligs = append(obligs, &Oblig{Func: fr.Name, Clause: "cover.requires", Props: []string{prop}, Hyps: fr.CoverHyps, Cover: true})
 			}
 		}
+		// zero-annotation safety sweep: functions without a contract, every implicit-panic site one obligation
+		if sw, ok := cs.Sweep[prop]; ok && sw {
+			for _, fn := range v.SweepTargets(cs.PkgPath) {
+				tn := targetName(fn)
+				if *only != "" && !strings.Contains(cs.Label+"."+tn, *only) {
+					continue
+				}
+				spec := &FuncSpec{Pkg: cs, Target: tn, Props: []string{prop}, Flags: map[string]string{"safe": "", "sweep": "", "maxpaths": "400"}}
+				fr := v.VerifyFunc(cs, spec)
+				funcs = append(funcs, fr)
+				for _, o := range fr.Obligs {
+					if strings.HasPrefix(o.Clause, "safe.") {
+						obligs = append(obligs, o)
+					}
+				}
+			}
+		}
 		for _, fd := range cs.Frames {
 			if !hasProp(fd.Props) {
 				continue
@@ -401,6 +418,9 @@ func cmdCheck(args []string) int {
 	}
 	// functions that could not be executed fail all their clauses
 	for _, fr := range funcs {
+		if fr.Sweep {
+			continue // sweep functions that the engine cannot execute are simply not covered
+		}
 		if fr.Err != "" || len(fr.Unsupported) > 0 {
 			n := fr.Name + ":engine"
 			msg := fr.Err
@@ -457,7 +477,7 @@ func cmdCheck(args []string) int {
 			}
 			continue
 		}
-		if cr == nil && (strings.Contains(n, ":call(") || strings.Contains(n, ":callsite(") || strings.Contains(n, ":safe.")) {
+		if cr == nil && (strings.Contains(n, ":call(") || strings.Contains(n, ":callsite(") || (strings.Contains(n, ":safe.") && strings.Contains(n, "("))) {
 			// obligations attached to call sites / index expressions: if the site no longer exists there is nothing to prove
 			discharged++
 			continue
